@@ -188,7 +188,14 @@ impl<'l, T: Debug> OrderedLocalQueue<'l, T> {
 
     /// Returns `true` if all the queues are empty.
     pub fn is_empty(&self) -> bool {
-        self.len() == 0
+        // every loop thread asks this on every turn while the owners of the other local queues
+        // push and pop: only look at the workers (`len` subtracts two racing counters)
+        self.shared.is_empty()
+            && self
+                .shared
+                .local_queues
+                .iter()
+                .all(|local_queue| local_queue.iter().all(|entry| entry.value().is_empty()))
     }
 
     /// Returns `true` if the local queue is full.
@@ -417,15 +424,12 @@ impl<'l, T: Debug> OrderedLocalQueue<'l, T> {
                             .stealer()
                             .steal(into_queue, |n| {
                                 //可偷取的最大长度与本地队列可偷长度做比较
+                                // `n` is the victim's length as the steal itself sees it; asking
+                                // the victim's worker (`spare_capacity`) from this thread races
+                                // with its owner and may see more items than the ring holds
                                 n.min(self.max_steal())
                                     //与其他队列当前长度的一半做比较
-                                    .min(
-                                        worker
-                                            .capacity()
-                                            .saturating_sub(worker.spare_capacity())
-                                            .saturating_add(1)
-                                            .saturating_div(2),
-                                    )
+                                    .min(n.saturating_add(1).saturating_div(2))
                             })
                             .is_ok()
                         {
